@@ -5,6 +5,112 @@ package marbl
 // Contracts for govc (contract-based deductive verification, see /verif/DESIGN.md).
 // This file contains comments only and is compiled only with the build tag `verif`.
 
+// ---------------------------------------------------------------------------------------------
+// C19: the frame reader never panics.
 //@ func (*Reader).ReadFrame
 //@   serves C19
 //@   safe index slice make div assert
+
+// ---------------------------------------------------------------------------------------------
+// C19 / C15: frame encoders. nFrames counts the frames handed to the writer goroutine (one channel send each); the
+// last* ghosts describe the latest data frame.
+//@ ghost var nFrames int
+//@ ghost var lastDataIdx uint32
+//@ ghost var lastDataTerminal bool
+//@ ghost var lastDataLen int
+//@ ghost var lastDataBuf []byte
+//@ ghost var lastRdN int
+//@ ghost var lastRdErr error
+
+// (The big-endian 32-bit fields of the frames are not asserted: the div/mod reasoning did not discharge robustly.)
+
+//@ func newFrame
+//@   serves C19
+//@   safe slice index make
+//@   requires len(id) >= 8
+//@   modifies nothing
+//@   ensures[ten-byte-frame-head] len(result) == 10 && result[0] == ft && result[1] == mt && fresh(result)
+//@   ensures[message-id-copied] forall k int :: 0 <= k && k < 8 ==> result[2+k] == id[k]
+
+//@ func (*Stream).sendHeader
+//@   serves C19 C15
+//@   safe slice index
+//@   requires s != nil && len(id) >= 8
+//@   modifies nFrames
+//@   ensures[one-frame-per-header] nFrames == old(nFrames) + 1
+//@   at send 0 before assert[header-frame-length] len(key) < 4294967296 && len(value) < 4294967296 ==> len(sent) == 18 + len(key) + len(value)
+//@   at send 0 before assert[header-frame-type-bytes] sent[0] == HeaderFrame && sent[1] == mt
+//@   at send 0 after set nFrames = nFrames + 1
+
+//@ func (*Stream).sendData
+//@   serves C19 C15
+//@   safe slice index
+//@   requires s != nil && len(id) >= 8 && 0 <= bl && bl <= len(b) && bl < 2147483648
+//@   modifies nFrames, lastDataIdx, lastDataTerminal, lastDataLen, lastDataBuf
+//@   ensures[one-frame-per-read] nFrames == old(nFrames) + 1 && lastDataIdx == i && lastDataTerminal == terminal && lastDataLen == bl && lastDataBuf == b
+//@   at send 0 before assert[data-frame-length] len(sent) == 19 + bl
+//@   at send 0 before assert[data-frame-type-bytes] sent[0] == DataFrame && sent[1] == mt
+//@   at send 0 before assert[data-frame-terminal-byte] sent[14] == ite(terminal, 1, 0)
+//@   at send 0 after set nFrames = nFrames + 1
+//@   at entry 0 before set lastDataIdx = i
+//@   at entry 0 before set lastDataTerminal = terminal
+//@   at entry 0 before set lastDataLen = bl
+//@   at entry 0 before set lastDataBuf = b
+
+//@ extern iface io.Reader.Read
+//@   modifies p[*], lastRdN, lastRdErr
+//@   ensures 0 <= n && n <= len(p) && lastRdN == n && lastRdErr == err
+//@ extern func atomic.AddUint32
+//@   requires addr != nil
+//@   modifies *addr
+//@   ensures *addr == wrap32(old(*addr) + delta) && result == *addr
+
+// the body wrapper returns exactly what the wrapped body returned and logs exactly the bytes it returned
+//@ func (*bodyLogger).Read
+//@   serves C19 C15
+//@   requires bl != nil && bl.s != nil && bl.body != nil && len(bl.id) >= 8 && len(b) < 2147483648
+//@   modifies b[*], bl.index, nFrames, lastDataIdx, lastDataTerminal, lastDataLen, lastDataBuf, lastRdN, lastRdErr
+//@   ensures[same-count-and-error-as-the-wrapped-body] result0 == lastRdN && result1 == lastRdErr
+//@   ensures[one-data-frame-with-the-bytes-read] nFrames == old(nFrames) + 1 && lastDataLen == result0 && lastDataBuf == b
+//@   ensures[contiguous-index] lastDataIdx == old(bl.index) && bl.index == wrap32(old(bl.index) + 1)
+//@   ensures[terminal-exactly-at-end-of-file] lastDataTerminal == (result1 == io.EOF)
+//@ func (*bodyLogger).Close
+//@   serves C15
+//@   requires bl != nil && bl.body != nil
+//@   modifies nothing
+
+// ---------------------------------------------------------------------------------------------
+// C15: logging changes nothing of the message but its body handle, which is wrapped by a pass-through reader.
+//@ extern func (*proxyutil.Header).Map
+//@   ensures result != nil
+//@ func (*Stream).LogRequest
+//@   serves C15 C19
+//@   requires s != nil && req != nil && req.URL != nil && len(id) >= 8 && linked(req)
+//@   modifies req.Body, nFrames, martian.ctxmu.rheld, sync.RWMutex.rheld
+//@   ensures[only-the-body-handle-is-replaced] typeis(req.Body, *bodyLogger) && as(req.Body, *bodyLogger).body == old(req.Body) && as(req.Body, *bodyLogger).index == 0 &&
+//@        as(req.Body, *bodyLogger).s == s && as(req.Body, *bodyLogger).id == id && as(req.Body, *bodyLogger).mt == Request
+//@   ensures[pseudo-headers-first] nFrames >= old(nFrames) + 8 && result == nil
+//@   loop 0 invariant nFrames >= old(nFrames) + 8 && req.Body == old(req.Body)
+//@   loop 1 invariant nFrames >= old(nFrames) + 8 && req.Body == old(req.Body)
+//@ func (*Stream).LogResponse
+//@   serves C15 C19
+//@   requires s != nil && res != nil && len(id) >= 8 && linked(res.Request)
+//@   modifies res.Body, nFrames, martian.ctxmu.rheld, sync.RWMutex.rheld
+//@   ensures[only-the-body-handle-is-replaced] typeis(res.Body, *bodyLogger) && as(res.Body, *bodyLogger).body == old(res.Body) && as(res.Body, *bodyLogger).index == 0 &&
+//@        as(res.Body, *bodyLogger).s == s && as(res.Body, *bodyLogger).id == id && as(res.Body, *bodyLogger).mt == Response
+//@   ensures[pseudo-headers-first] nFrames >= old(nFrames) + 4 && result == nil
+//@   loop 0 invariant nFrames >= old(nFrames) + 4 && res.Body == old(res.Body)
+//@   loop 1 invariant nFrames >= old(nFrames) + 4 && res.Body == old(res.Body)
+
+//@ func (*Modifier).ModifyRequest
+//@   serves C15
+//@   requires m != nil && m.s != nil && req != nil && req.URL != nil && linked(req)
+//@   modifies req.Body, nFrames, martian.ctxmu.rheld, sync.RWMutex.rheld
+//@   noframe
+//@   ensures[skip-logging-leaves-log-and-message-untouched] skipMarked(req) ==> nFrames == old(nFrames) && req.Body == old(req.Body)
+//@ func (*Modifier).ModifyResponse
+//@   serves C15
+//@   requires m != nil && m.s != nil && res != nil && linked(res.Request)
+//@   modifies res.Body, nFrames, martian.ctxmu.rheld, sync.RWMutex.rheld
+//@   noframe
+//@   ensures[skip-logging-leaves-log-and-message-untouched] skipMarked(res.Request) ==> nFrames == old(nFrames) && res.Body == old(res.Body)
